@@ -236,6 +236,19 @@ impl GenerationPass for AvailableValuePass {
                 rule_known_values_to_stack(&mut out_memory_n, &node.reg_values_in());
                 // TODO stack reset?
 
+                // A value recorded as "register + i" describes the register as it
+                // was when the value was recorded. Once this node redefines the
+                // register, the value can no longer be resolved against it.
+                let mut redefined = node.kill_reg();
+                if node.calls_to().is_some() {
+                    redefined |= Register::return_addr_set();
+                }
+                let still_valid = |value: &AvailableValue| {
+                    !matches!(value, AvailableValue::RegisterWithScalar(reg, _) if redefined.contains(reg))
+                };
+                out_reg_n = retain_values(out_reg_n, |_, value| still_valid(value));
+                out_memory_n = retain_values(out_memory_n, |_, value| still_valid(value));
+
                 // If either of the outs changed, replace the old outs with the new outs
                 // and mark that we changed something.
                 changed |= node.set_reg_values_out(out_reg_n);
